@@ -258,6 +258,27 @@ def search(res, tier, seed, deep=False):
                     if bad:
                         report("kwargs-pair-dropped:" + dn, dn + ".from_variable", dict(kind="kwargs-pair", debiaser=dn, variable=var, kwargs={k: repr(v) for k, v in kw.items()}),
                                dict(not_taken=bad, got={k: repr(getattr(a, k)) for k in bad}), "two keyword arguments given together: one of them did not override the default")
+    # 1c'. None is a value too: an explicit None override (no range check; no distribution for the non-parametric mapping) wins
+    #      over the variable's default exactly like any other value
+    for dn, cls in cl.items():
+        fields_ = {f.name for f in attrs.fields(cls)}
+        tries = [dict(reasonable_physical_range=None)]
+        if dn == "QuantileMapping": tries.append(dict(mapping_type="nonparametric", distribution=None))
+        if dn == "ISIMIP": tries.append(dict(distribution=None, nonparametric_qm=True))
+        for var in ("tas", "hurs"):
+            for kw in tries:
+                if not set(kw) <= fields_: continue
+                try:
+                    with warnings.catch_warnings():
+                        warnings.simplefilter("ignore")
+                        a = cls.from_variable(var, **kw)
+                    bad = [k for k in kw if not (getattr(a, k) is None if kw[k] is None else getattr(a, k) == kw[k])]
+                except Exception:
+                    res.count("none-override-rejected-by-validators"); continue
+                res.case(("kwargs-none", dn, var))
+                if bad:
+                    report("kwargs-none-dropped:" + dn, dn + ".from_variable", dict(kind="kwargs-none", debiaser=dn, variable=var, kwargs={k: repr(v) for k, v in kw.items()}),
+                           dict(not_taken=bad, got={k: repr(getattr(a, k))[:60] for k in bad}), "an explicit None given as keyword argument did not override the variable default")
     # 1d. invalid combinations are rejected at construction whatever the unrelated switches are
     for rwm in (True, False):
         for kwargs, what in [(dict(distribution=None, nonparametric_qm=False), "ISIMIP without a distribution and without non-parametric mapping"),
@@ -310,6 +331,9 @@ def search(res, tier, seed, deep=False):
             rest = [c for c in mine if not c[2].startswith("running_window")]
             r.shuffle(rest); sel += rest[:3]
         combos = sel
+    # a window setting raised by exactly one day (to an even value, which the constructor rounds up to the next odd one)
+    combos = combos + [(dn_, "tas", fn_, [v_]) for dn_ in ("LinearScaling", "QuantileMapping", "CDFt") if dn_ in cl
+                       for fn_, v_ in (("running_window_length", 32), ("running_window_step_length", 2))]
     for dn, var, fname, a in combos:
         cls = cl[dn]
         with warnings.catch_warnings():
